@@ -248,9 +248,33 @@ func c09(p *Prog, r *Report) {
 		nS++
 		if dominates(update, rps[i].Ret) {
 			nDom++
+			continue
+		}
+		// or the binding is already the presented one: ok && stored == presented
+		hasOK, hasEQ := false, false
+		for _, a := range rps[i].Facts {
+			if a.Kind != Truth {
+				continue
+			}
+			if ex, ok := a.V.(*ssa.Extract); ok && ex.Tuple == ssa.Value(lookup) && ex.Index == 1 && a.Pol {
+				hasOK = true
+			}
+			if b, ok := a.V.(*ssa.BinOp); ok && (b.Op == token.NEQ || b.Op == token.EQL) {
+				eq := (b.Op == token.EQL && a.Pol) || (b.Op == token.NEQ && !a.Pol)
+				x, y := b.X, b.Y
+				if isLookupVal(y, lookup) {
+					x, y = y, x
+				}
+				if eq && isLookupVal(x, lookup) && s.Of(y).String() == vU {
+					hasEQ = true
+				}
+			}
+		}
+		if hasOK && hasEQ && !reaches(update, rps[i].Ret) {
+			nDom++
 		}
 	}
-	r.Check(nS > 0 && nS == nDom, R2, "every accepted call performs the update", p.InstrPos(update), fmt.Sprintf("update dominates %d/%d success returns", nDom, nS), fmt.Sprintf("update dominates only %d of %d success returns: an accepted pair may be left unbound", nDom, nS))
+	r.Check(nS > 0 && nS == nDom, R2, "every accepted call performs the update", p.InstrPos(update), fmt.Sprintf("%d/%d success returns are dominated by the update or by ok && stored == presented", nDom, nS), fmt.Sprintf("update dominates only %d of %d success returns: an accepted pair may be left unbound", nDom, nS))
 
 	if callB != nil {
 		// the helper's verdict is FinalizeIndex's: success only behind its success,
